@@ -335,6 +335,10 @@ pub fn parts(tier: Tier) -> Vec<(String, Rx, u64, Vec<u64>, u32)> {
             v.push((format!("{:?} base 2^64-600", rx), rx, u64::MAX - 600, small.clone(), 5));
         }
     }
+    // jumps of exactly one, two and three 64-number words (and their neighbours)
+    for rx in [Rx::Server, Rx::Client] {
+        v.push((format!("{:?} base 0, jumps around multiples of 64", rx), rx, 0u64, vec![0, 1, 63, 64, 65, 127, 128, 129, 192, 193], tier.pick(4, 5)));
+    }
     // sessions whose handshake ran over a lossy path (repeated response, late first keep-alive)
     for rx in [Rx::Server, Rx::Client] {
         v.push((format!("{:?} base 0 after a lossy handshake", rx), rx, 0u64, vec![0, 1, 2, 3, 255, 256, 257], tier.pick(4, 6)));
